@@ -32,6 +32,31 @@ def last_member(expr):
     return m[-1] if m else None
 
 
+def qual_member(f, o, depth=0):
+    """'struct.member' of the object an operand reads from / points into (from the GEP's struct step), or None"""
+    o = f.strip(o)
+    if o[0] != 'i' or depth > 6:
+        return None
+    i = f.insts[o[1]]
+    if i.op == 'load':
+        a = f.strip(i.ops[0])
+        if a[0] == 'i' and f.insts[a[1]].op == 'alloca':
+            stores = [u for u in f.users.get(a[1], ()) if u.op == 'store' and f.strip(u.ops[1]) == a]
+            if len(stores) == 1:
+                return qual_member(f, stores[0].ops[0], depth + 1)
+            return None
+        return qual_member(f, i.ops[0], depth + 1)
+    if i.op == 'getelementptr':
+        for st in reversed(i.steps or []):
+            if st[0] == 's':
+                nm = f.member(st)
+                return '%s.%s' % (st[2].replace('struct.', ''), nm) if nm else None
+        return qual_member(f, i.ops[0], depth + 1)
+    if i.op in ('add', 'sub') and f.const_of(i.ops[1]) is not None:
+        return qual_member(f, i.ops[0], depth + 1)
+    return None
+
+
 def local_source(f, o, depth=0):
     """expression a local variable was assigned from, when it has a single non-constant store (size = file->size)"""
     o = f.strip(o)
@@ -56,10 +81,10 @@ def writer_tokens_of_call(f, c):
         return ('c', chr(k) if k is not None else '?', None)
     if c.callee in WR:
         src = local_source(f, c.ops[0])
-        return (WR[c.callee], None, last_member(src))
+        return (WR[c.callee], None, qual_member(f, c.ops[0]) or last_member(src))
     if c.callee == 'swrite':
         n = f.const_of(c.ops[1])
-        return ('raw', str(n) if n is not None else f.expr(c.ops[1]), last_member(f.expr(c.ops[0])))
+        return ('raw', str(n) if n is not None else f.expr(c.ops[1]), qual_member(f, c.ops[0]) or last_member(f.expr(c.ops[0])))
     return None
 
 
@@ -253,7 +278,7 @@ def reader_grammar(P, fname):
             calls[c.id] = ('c', '?', None)
         elif c.callee == 'sread':
             n = f.const_of(c.ops[2])
-            calls[c.id] = ('raw', str(n) if n is not None else f.expr(c.ops[2]), last_member(f.expr(c.ops[1])))
+            calls[c.id] = ('raw', str(n) if n is not None else f.expr(c.ops[2]), qual_member(f, c.ops[1]) or last_member(f.expr(c.ops[1])))
         else:
             calls[c.id] = (RD[c.callee], None, reader_member(P, f, c))
     gram = {}
@@ -350,61 +375,86 @@ _ALLOC_MAP = {}
 
 
 def alloc_param_members(P, name):
-    """constructor summary: parameter index -> member the parameter is stored into (file_alloc, map_alloc, ...)"""
+    """constructor summary: parameter index -> 'struct.member' the parameter is stored / copied into (file_alloc, map_alloc, ...)"""
     if name in _ALLOC_MAP:
         return _ALLOC_MAP[name]
     res = {}
     g = P.functions.get(name)
     if g is not None and not g.decl:
         aa = g.arg_allocas()
+        def param_of(o):
+            v = g.strip(o)
+            vi = g.insts[v[1]] if v[0] == 'i' else None
+            if vi is not None and vi.op == 'load':
+                a = g.strip(vi.ops[0])
+                if a[0] == 'i' and a[1] in aa:
+                    return aa[a[1]]
+            return None
         for i in g.all_insts():
             if i.op == 'store':
                 dst = g.expr(i.ops[1])
                 if '->' in dst:
-                    v = g.strip(i.ops[0])
-                    vi = g.insts[v[1]] if v[0] == 'i' else None
-                    if vi is not None and vi.op == 'load':
-                        a = g.strip(vi.ops[0])
-                        if a[0] == 'i' and a[1] in aa:
-                            res[aa[a[1]]] = last_member(dst)
-            elif i.op == 'call' and i.callee in ('pathcpy', 'strdup_nofail', 'pathimport'):
-                pass
+                    k = param_of(i.ops[0])
+                    if k is not None:
+                        res[k] = qual_member(g, i.ops[1]) or last_member(dst)
+                    else:
+                        # member = strdup_nofail(param)
+                        vi = g.inst_of(i.ops[0])
+                        if vi is not None and vi.op == 'call' and vi.callee in ('strdup_nofail', 'strdup'):
+                            k = param_of(vi.ops[0])
+                            if k is not None:
+                                res[k] = qual_member(g, i.ops[1]) or last_member(dst)
+            elif i.op == 'call' and i.callee in ('pathcpy', 'pathimport') and len(i.ops) >= 3:
+                k = param_of(i.ops[2])
+                if k is not None:
+                    res[k] = qual_member(g, i.ops[0]) or last_member(g.expr(i.ops[0]))
     _ALLOC_MAP[name] = res
     return res
 
 
 def reader_member(P, f, c):
-    """member into which the decoded out-variable finally goes: direct store to a member, or argument of an *_alloc constructor"""
+    """'struct.member' into which the decoded out-variable finally goes: direct store to a member, or argument of an *_alloc
+    constructor (scalars: the loaded value; strings: the buffer itself is passed on)"""
     a = f.strip(c.ops[1])
     if a[0] != 'i':
         return None
     ai = f.insts[a[1]]
+    # array decay: &buf[0]
+    while ai.op == 'getelementptr' and f.strip(ai.ops[0])[0] == 'i' and all(st[0] == 'a' for st in (ai.steps or [])):
+        ai = f.insts[f.strip(ai.ops[0])[1]]
     if ai.op != 'alloca':
-        return last_member(f.expr(c.ops[1]))
+        return qual_member(f, c.ops[1]) or last_member(f.expr(c.ops[1]))
     mems = set()
     rset = f.reach([c])
-    for ld in f.users.get(ai.id, ()):
-        if ld.op != 'load' or ld.id not in rset:
+    work = []
+    for u in f.users.get(ai.id, ()):
+        if u.id not in rset:
             continue
-        work = [ld]
-        seen = set()
-        while work:
-            x = work.pop()
-            if x.id in seen:
-                continue
-            seen.add(x.id)
-            for u in f.users.get(x.id, ()):
-                if u.op in ('zext', 'sext', 'trunc', 'add', 'sub', 'mul'):
-                    work.append(u)
-                elif u.op == 'store' and f.strip(u.ops[0])[0] == 'i':
-                    d = f.expr(u.ops[1])
-                    if '->' in d or '.' in d:
-                        mems.add(last_member(d))
-                elif u.op == 'call' and u.callee_full:
-                    pm = alloc_param_members(P, u.callee_full)
-                    for k, o in enumerate(u.ops):
-                        if f.strip(o) == ['i', x.id] and k in pm:
-                            mems.add(pm[k])
+        if u.op == 'load':
+            work.append(u)
+        elif u.op == 'getelementptr' and all(st[0] == 'a' for st in (u.steps or [])):
+            work.append(u)          # the buffer passed on as a string
+    seen = set()
+    while work:
+        x = work.pop()
+        if x.id in seen:
+            continue
+        seen.add(x.id)
+        for u in f.users.get(x.id, ()):
+            if u.op in ('zext', 'sext', 'trunc', 'add', 'sub', 'mul', 'bitcast'):
+                work.append(u)
+            elif u.op == 'store' and f.strip(u.ops[0])[0] == 'i' and f.strip(u.ops[0])[1] == x.id:
+                d = f.expr(u.ops[1])
+                if '->' in d or '.' in d:
+                    mems.add(qual_member(f, u.ops[1]) or last_member(d))
+            elif u.op == 'call' and u.callee_full and u.id in rset:
+                if u.callee in ('pathcpy', 'pathimport') and len(u.ops) >= 3 and f.strip(u.ops[2]) == ['i', x.id]:
+                    mems.add(qual_member(f, u.ops[0]) or last_member(f.expr(u.ops[0])))
+                    continue
+                pm = alloc_param_members(P, u.callee_full)
+                for k, o in enumerate(u.ops):
+                    if f.strip(o) == ['i', x.id] and k in pm:
+                        mems.add(pm[k])
     mems.discard(None)
     if len(mems) == 1:
         return mems.pop()
